@@ -370,6 +370,8 @@ EXACT = {
     'isi_profile_bi': (0,), 'isi_profile_multi': (0,), 'spike_profile_bi': (0,), 'spike_profile_multi': (0,),
     'sync_profile_bi': (0, 1, 2), 'sync_profile_multi': (0, 1, 2), 'order_profile_bi': (0, 1, 2),
     'order_profile_multi': (0, 1, 2), 'pwc_plot': (0,), 'pwl_plot': (0,),
+    'pyx_isi_profile': (0,), 'pyx_spike_profile': (0,), 'pyx_coinc_value': (0,), 'pyx_order_value': (0,), 'pyx_dir_value': (0,),
+    'coinc_value_k': (0,), 'order_value_k': (0,), 'dir_value_k': (0,),
 }
 
 
